@@ -183,8 +183,18 @@ struct TypeCheckVisitor<'a> {
 impl TypeCheckVisitor<'_> {
     fn visit_toplevel_item(&mut self, item: &ToplevelItem) {
         match &item {
-            ToplevelItem::Fun(_, fun_info, _) => self.visit_fun_info(fun_info),
-            ToplevelItem::Method(method_info, _) => self.visit_method_info(method_info),
+            ToplevelItem::Fun(_, fun_info, _) => {
+                // A toplevel function runs in its own stack frame, so
+                // it cannot see the local variables of the toplevel.
+                let toplevel_bindings = self.hide_toplevel_bindings();
+                self.visit_fun_info(fun_info);
+                self.bindings = toplevel_bindings;
+            }
+            ToplevelItem::Method(method_info, _) => {
+                let toplevel_bindings = self.hide_toplevel_bindings();
+                self.visit_method_info(method_info);
+                self.bindings = toplevel_bindings;
+            }
             ToplevelItem::Test(test_info) => self.visit_test_info(test_info),
             ToplevelItem::Enum(enum_info) => self.visit_enum_info(enum_info),
             ToplevelItem::Struct(struct_info) => self.visit_struct_info(struct_info),
@@ -209,6 +219,17 @@ impl TypeCheckVisitor<'_> {
             ToplevelItem::Expr(toplevel_expr) => self.visit_toplevel_expr(toplevel_expr),
             ToplevelItem::Block(block) => self.visit_block(block),
         }
+    }
+
+    /// Replace the local bindings with an empty scope, returning the
+    /// previous bindings so the caller can restore them.
+    fn hide_toplevel_bindings(&mut self) -> LocalBindings {
+        std::mem::replace(
+            &mut self.bindings,
+            LocalBindings {
+                blocks: vec![FxHashMap::default()],
+            },
+        )
     }
 
     fn visit_test_info(&mut self, test_info: &TestInfo) {
